@@ -326,6 +326,8 @@ type Scenario struct {
 
 	mu        sync.Mutex
 	verifyLog []VerifyCall
+	// inVerify is set while HoldInVerify keeps the monitor parked inside Verify.
+	inVerify atomic.Bool
 	// OnVerify, if set, is called (outside mu) on every Verify with the receiver.
 	OnVerify func(c *Cfg)
 	// Hook, if set, is called at every dials hook point of this scenario.
@@ -398,6 +400,9 @@ func (s *Scenario) onVerify(c *Cfg) {
 		f(c)
 	}
 }
+
+// InVerify reports whether HoldInVerify currently has the monitor parked inside Verify.
+func (s *Scenario) InVerify() bool { return s.inVerify.Load() }
 
 // VerifyLog returns a copy of the Verify call log.
 func (s *Scenario) VerifyLog() []VerifyCall {
